@@ -112,12 +112,17 @@ def nontrivial(s):
 # ---- authority forms
 
 def gen_authority(rng):
-    kind = rng.choice(['reg', 'ipv4', 'ipv6', 'ipv6bare'])
+    kind = rng.choice(['reg', 'reg2', 'ipv4', 'ipv6', 'ipv6bare', 'ipvfuture'])
     if kind == 'reg':
         labels = [''.join(rng.choice('abcxyz019-') for _ in range(rng.randint(1, 8))) for _ in range(rng.randint(1, 4))]
         host = '.'.join(labels)
+    elif kind == 'reg2':
+        host = ''.join(rng.choice("abz09-._~!$&'()*+,;=") for _ in range(rng.randint(1, 12)))
     elif kind == 'ipv4':
         host = '.'.join(str(rng.randint(0, 255)) for _ in range(4))
+    elif kind == 'ipvfuture':
+        host = 'v' + ''.join(rng.choice('0123456789abcdefABCDEF') for _ in range(rng.randint(1, 3))) + '.' + \
+            ''.join(rng.choice("abz09-._~!$&'()*+,;=:") for _ in range(rng.randint(1, 12)))
     else:
         if rng.random() < 0.5:
             host = ':'.join('%x' % rng.randint(0, 0xFFFF) for _ in range(8))
@@ -127,7 +132,7 @@ def gen_authority(rng):
             host = '::ffff:' + '.'.join(str(rng.randint(0, 255)) for _ in range(4))
     port = rng.choice([None, None, rng.randint(0, 65535), rng.choice([80, 443, 8080, 1, 65535, 0, 0, 9, 10])])
     default = rng.choice([None, 80, 443])
-    if kind == 'ipv6':
+    if kind in ('ipv6', 'ipvfuture'):
         text = '[' + host + ']' + ('' if port is None else ':%d' % port)
     elif kind == 'ipv6bare':
         text, port = host, None
@@ -201,6 +206,108 @@ def random_string(rng):
     else:
         out.append(''.join(rng.choice(ALPHABET + ['a', 'A', '9', '%', '%']) for _ in range(n)))
     return ''.join(out)
+
+
+# ---- code-point classes: one representative string family per Unicode predicate / UTF-8 byte value
+
+def codepoint_sweep(quick):
+    """Code points such that every UTF-8 lead and continuation byte value occurs, every length boundary and plane
+    edge, plus a stride sample of the whole range (thorough: every code point)."""
+    cps = set(range(0x80, 0x300))
+    cps.update([0x7FF, 0x800, 0xFFF, 0x1000, 0xD7FF, 0xE000, 0xFFFD, 0xFFFE, 0xFFFF])
+    for plane in range(1, 17):
+        base = plane << 16
+        cps.update([base, base + 1, base + 0x3F, base + 0x40, base + 0xFFF, base + 0x1000, base + 0xFFFE, base + 0xFFFF])
+    cps.update(range(0x800, 0x10000, 0x40 * 3 + 1))            # 3-byte: second/third byte values sweep
+    cps.update(range(0x10000, 0x110000, 0x1000 * 3 + 0x41))     # 4-byte: all four byte positions sweep
+    cps.update(range(0, 0x110000, 97 if quick else 1))
+    return sorted(c for c in cps if not 0xD800 <= c <= 0xDFFF)
+
+
+PREDICATES = ('isdigit', 'isdecimal', 'isnumeric', 'isalpha', 'isspace', 'isupper', 'islower', 'istitle', 'isidentifier')
+
+
+def predicate_members():
+    """For each str predicate: its ASCII members and a spread of non-ASCII members (strings made only of members of
+    one predicate class are what a `if s.isdigit(): fast path` style shortcut sees)."""
+    out = {}
+    for name in PREDICATES:
+        asc = [chr(c) for c in range(128) if getattr(chr(c), name)()]
+        non = [chr(c) for c in range(128, 0x30000) if not 0xD800 <= c <= 0xDFFF and getattr(chr(c), name)()]
+        out[name] = (asc[:3], non[::max(1, len(non) // 24)][:24])
+    return out
+
+
+AUTH_HOSTS = [
+    # (text inside the authority, host wanted)
+    ('example.com', 'example.com'), ('a', 'a'), ('a-b.c-d', 'a-b.c-d'), ('EXAMPLE.com', 'EXAMPLE.com'), ('localhost', 'localhost'),
+    ('a_b~c', 'a_b~c'), ("x!$&'()*+,;=y", "x!$&'()*+,;=y"), ('ex%41mple.org', 'ex%41mple.org'), ('xn--nxasmq6b', 'xn--nxasmq6b'),
+    ('1.2.3.4', '1.2.3.4'), ('255.255.255.255', '255.255.255.255'), ('0.0.0.0', '0.0.0.0'), ('1.2.3', '1.2.3'), ('999.1.1.1', '999.1.1.1'),
+    ('[::1]', '::1'), ('[::]', '::'), ('[1:2:3:4:5:6:7:8]', '1:2:3:4:5:6:7:8'), ('[fe80::1%25eth0]', 'fe80::1%25eth0'),
+    ('[::ffff:1.2.3.4]', '::ffff:1.2.3.4'), ('[2001:db8::8:800:200c:417a]', '2001:db8::8:800:200c:417a'),
+    ('[v7.example]', 'v7.example'), ('[v1.fe80::a+en1]', 'v1.fe80::a+en1'), ('[vF.a]', 'vF.a'), ('[v1a.x:y]', 'v1a.x:y'),
+    ("[v2.!$&'()*+,;=]", "v2.!$&'()*+,;="), ('[v9.-._~]', 'v9.-._~'),
+]
+
+
+def authority_grammar(rec):
+    """Deterministic: every host form x port {absent, 0, 1, 80, 8000, 65535} x default {None, 80}."""
+    for text, host in AUTH_HOSTS:
+        for port in (None, 0, 1, 80, 8000, 65535):
+            for default in (None, 80):
+                full = text if port is None else '%s:%d' % (text, port)
+                want = (host, default if port is None else port)
+                try:
+                    got = uri.parse_host(full, default)
+                except Exception as ex:  # noqa
+                    rec.violation('parse_host-raised', {'host': full, 'default': default, 'exc': repr(ex)})
+                    continue
+                rec.count('mon.parse_host')
+                rec.count('mon.parse_host_grammar')
+                if tuple(got) != want:
+                    rec.violation('parse_host-mismatch', {'host': full, 'default': default, 'got': got, 'want': want})
+                rec.case(('auth', full, default))
+    # bare (unbracketed) IPv6: documented to be returned whole with the default port
+    for text in ('::1', '1:2:3:4:5:6:7:8', 'fe80::1', '::'):
+        for default in (None, 443):
+            try:
+                got = uri.parse_host(text, default)
+            except Exception as ex:  # noqa
+                rec.violation('parse_host-raised', {'host': text, 'default': default, 'exc': repr(ex)})
+                continue
+            rec.count('mon.parse_host')
+            if tuple(got) != (text, default):
+                rec.violation('parse_host-mismatch', {'host': text, 'default': default, 'got': got, 'want': (text, default)})
+
+
+def unicode_phase(rec):
+    quick = rec.tier == 'quick'
+    cps = codepoint_sweep(quick)
+    for i, cp in enumerate(cps):
+        if i % rec.nshards != rec.shard:
+            continue
+        c = chr(cp)
+        for t in ((c, c + 'a', '/' + c) if i % 7 == 0 or quick is False and i % 50 == 0 else (c,)):
+            check_string(rec, t)
+            rec.case(t)
+        rec.count('unicode.codepoints')
+    members = predicate_members()
+    for pi, name in enumerate(PREDICATES):
+        if pi % rec.nshards != rec.shard:
+            continue
+        asc, non = members[name]
+        pool = asc + non
+        for a in non:
+            for t in (a, a + a, a + (asc[0] if asc else a), (asc[0] if asc else a) + a, a + non[0] + a):
+                check_string(rec, t)
+                rec.case(t)
+                rec.count('unicode.predicate_strings')
+        rng = __import__('random').Random(pi)
+        for _ in range(60 if quick else 600):
+            t = ''.join(rng.choice(pool) for _ in range(rng.randint(2, 6)))
+            check_string(rec, t)
+            rec.case(t)
+            rec.count('unicode.predicate_strings')
 
 
 def threaded_phase(rec):
@@ -302,6 +409,9 @@ def run(rec):
             rec.count('mon.parse_host')
             if tuple(got) != want:
                 rec.violation('parse_host-mismatch', {'host': host, 'default': default, 'got': got, 'want': want})
+    unicode_phase(rec)
+    if rec.shard == 0 and rec.mode == 'pure':
+        authority_grammar(rec)
     rec.exhaustive = True
     if rec.shard == 0:
         rec.note('exhaustive over all strings of length <= %d over %d symbols' % (maxlen, len(ALPHABET)))
@@ -329,6 +439,8 @@ def run(rec):
             check_unquote(rec, rng)
     threaded_phase(rec)
     rec.floor('mon.decode', 1000)
+    rec.floor('unicode.codepoints', 2000)
+    rec.floor('unicode.predicate_strings', 500)
     rec.floor('mon.threaded_decode', 200)
     rec.floor('random.joiner_path', 10)
     rec.floor('random.short_path', 10)
@@ -336,6 +448,7 @@ def run(rec):
     rec.floor('chk.not_escaped', 10)
     if rec.mode == 'pure':
         rec.floor('mon.parse_host', 10)
+        rec.floor('mon.parse_host_grammar', 300)
 
 
 def replay(rec, w):
